@@ -606,5 +606,41 @@ def rule_r7(ctx) -> RuleResult:
     return rr
 
 
+def rule_r8(ctx) -> RuleResult:
+    """'later duplicates win': `{{t|1=x|a}}` passes `a` as parameter 1, `{{t|a|1=x}}` passes `x`.  That is the case exactly when
+    the argument map is filled by ONE pass over the call's arguments in the order in which they were written, each store
+    overwriting what an earlier argument put there.  Filling it in several passes (all positional arguments first, then the
+    named ones) gives one group precedence whatever the order."""
+    rr = RuleResult("C04.R8", "the argument map of a template call is filled in one pass in call order (later duplicates win)", min_instances=1)
+    tb = X.template_branch(ctx)
+    parents = ctx.index.mod("core").parents
+    sites = X.map_fill_sites(tb, "ht", parents)
+    if not sites:
+        raise AnalysisError("template branch: no store into the argument map `ht` found")
+    vec = {"args[1:]"}
+    loops = []
+    for store, ls in sites:
+        own = [l for l in ls if isinstance(l, (ast.For, ast.DictComp))]
+        if not own:
+            rr.bad(Finding("C04.R8", X.CORE, X.RECURSE, unparse(store)[:70], "an entry is put into the argument map outside the loop over the call's arguments", store.lineno))
+            continue
+        loops.append((store, own[0]))
+    distinct = {id(l) for _, l in loops}
+    for store, l in loops:
+        if not X.iterates_vector(l, vec):
+            what = unparse(l.iter)[:50] if isinstance(l, ast.For) else unparse(l.generators[0].iter)[:50]
+            rr.bad(Finding("C04.R8", X.CORE, X.RECURSE, unparse(store)[:70],
+                           "this entry is stored by a loop over `{}`, not over the call's arguments in the order written: with the map filled in "
+                           "several passes one group of arguments always wins, so `{{{{t|1=x|a}}}}` passes `x` as parameter 1 where the later "
+                           "`a` must win".format(what), store.lineno))
+    if not rr.findings:
+        if len(distinct) == 1:
+            rr.ok(X.RECURSE, "all {} stores into ht sit in the one loop over args[1:]".format(len(loops)))
+        else:
+            rr.bad(Finding("C04.R8", X.CORE, X.RECURSE, "ht filled by {} loops".format(len(distinct)),
+                           "the argument map is filled by more than one pass over the arguments", loops[0][0].lineno))
+    return rr
+
+
 def run(ctx) -> list:
-    return [rule_r1(ctx), rule_r2(ctx), rule_r3(ctx), rule_r4(ctx), rule_r5(ctx), rule_r6(ctx), rule_r7(ctx)]
+    return [rule_r1(ctx), rule_r2(ctx), rule_r3(ctx), rule_r4(ctx), rule_r5(ctx), rule_r6(ctx), rule_r7(ctx), rule_r8(ctx)]
